@@ -1312,27 +1312,32 @@ class Interp:
         return PList(out)
 
     def e_DictComp(self, e, env):
-        if len(e.generators) != 1:
-            raise Unsupported("nested dict comprehension", e)
-        g = e.generators[0]
-        it = self.eval(g.iter, env)
-        if isinstance(it, PList):
-            items = it.items
-        elif isinstance(it, tuple):
-            items = list(it)
-        elif isinstance(it, PDict):
-            items = it.okeys()
-        else:
-            raise Unsupported("dict comprehension over " + canon(it), e)
         out = PDict()
-        for x in items:
-            env2 = dict(env)
-            self.assign(g.target, x, env2)
-            if all(self.truth(self.eval(c, env2), c) for c in g.ifs):
+
+        def rec(gi, env2):
+            if gi == len(e.generators):
                 k = self.eval(e.key, env2)
                 dk = self.dkey(k, e)
                 out.d[dk] = self.eval(e.value, env2)
                 out.k.setdefault(dk, k)
+                return
+            g = e.generators[gi]
+            it = self.eval(g.iter, env2)
+            if isinstance(it, PList):
+                items = it.items
+            elif isinstance(it, tuple):
+                items = list(it)
+            elif isinstance(it, PDict):
+                items = it.okeys()
+            else:
+                raise Unsupported("dict comprehension over " + canon(it), e)
+            for x in items:
+                env3 = dict(env2)
+                self.assign(g.target, x, env3)
+                if all(self.truth(self.eval(c, env3), c) for c in g.ifs):
+                    rec(gi + 1, env3)
+
+        rec(0, dict(env))
         return out
 
     # ---------------------------------------------------------------- calls
